@@ -105,8 +105,10 @@ var props = map[string]propCfg{
 	"C09": {
 		Scenarios: []scenCfg{
 			{Name: "c09", Quick: 1500, Thorough: 120000, Batch: 50},
+			{Name: "keyb", Quick: 600, Thorough: 40000, Batch: 50},
 		},
-		Rule: "c09: one evaluation = one simulated interactive session over a fully loaded list in which a seeded history of editing, navigation and selection actions (bound to keys, decoded by the real input decoder) is delivered; after each action (or burst) the session settles and (query, query cursor, list cursor, selection in selection order, limit) read from the real Terminal are compared with a reference editor/cursor/selection model whose result list comes from the sequential oracle; on accept the printed lines are compared with the model's selection; " +
+		Rule: "keyb: 1-8 keys from a table of 80 (function keys in both encodings, arrows with modifiers, editing keys, control and alt combinations, plain and multi-byte characters), each bound to put(<marker>), delivered in one write, key by key, or cut into seeded pieces with pauses: at rest the query is the markers in order (deliveries cut inside a key's sequence are counted, not judged); " +
+			"c09: one evaluation = one simulated interactive session over a fully loaded list in which a seeded history of editing, navigation and selection actions (bound to keys, decoded by the real input decoder) is delivered; after each action (or burst) the session settles and (query, query cursor, list cursor, selection in selection order, limit) read from the real Terminal are compared with a reference editor/cursor/selection model whose result list comes from the sequential oracle; on accept the printed lines are compared with the model's selection; " +
 			"distinct = distinct event-log hash; non-trivial = at least one preemption",
 		RealStub: map[string][]string{
 			"real": {"ParseOptions (--bind, --multi, --cycle, --layout, --height, --no-input)", "Run", "Terminal.Loop action interpreter", "LightRenderer input decoder", "matcher/merger", "printer"},
